@@ -29,7 +29,7 @@ MANIFEST = {
     "design_ref": "DESIGN.md section 6 C10; notes/C10.md",
 }
 REQ = ["Blots.Num", "Blots.gen.Builtins", "Blots.Ast", "Blots.Outcome", "Blots.PrattTypes", "Blots.gen.PrecTable",
-       "Blots.Pratt", "Blots.PrattRender"]
+       "Blots.Pratt", "Blots.PrattRender", "Blots.PrattStrip"]
 
 
 def regen_prec(h):
@@ -130,6 +130,46 @@ def flat_cases(tier, rng):
                         cases.append(("stack", "[" + "; ".join(
                             [it_id("z"), it_op(g.BIN_RULE[o])] + its + [it_op(g.BIN_RULE[o]), it_id("w")]) + "]"))
     return cases
+
+
+def comment_cases():
+    """token streams with comment pairs / annotations (lists, records, do-blocks, nested), each also
+    in its stripped form: the model must agree with the real parser on both, and both must agree
+    with each other (C10_comments_irrelevant)"""
+    a, b, x = 'IIdent "a"', 'IIdent "b"', 'IIdent "x"'
+    add = "[%s; IOp R_add; %s]" % (a, b)
+    base = [
+        '[IList [LCom "// first"; LItem [%s] None; LCom "// second"; LCom "// third"; LItem %s None]]' % (a, add),
+        '[IList [LItem [%s] None; LItem [%s] (Some "// eol on the last item")]]' % (a, b),
+        '[IList [LItem [%s] (Some "// eol after the comma"); LItem [%s] None; LCom "// closing"]]' % (a, b),
+        '[IList [LCom "// only a comment before the item"; LItem [IList [LCom "// nested"; LItem [%s] None]] None]]' % a,
+        '[IRecord [RCom "// k"; RPairI (RKId "k") %s None; RCom "// s"; RShortI "b" None; '
+        'RSpreadI [IOp R_spread_operator; IExpr false [%s]] (Some "// last")]]' % (add, x),
+        '[IRecord [RPairI (RKDyn [IExpr false [%s]]) [%s] (Some "// dyn"); RPairI (RKStr "q r") [%s] None; RCom "// end"]]'
+        % (a, b, x),
+        '[IDo [DCom "// lead"; DStmt [IAssign "x" %s] (Some "// trailing"); DCom "// between"; '
+        'DStmt [%s] None; DCom "// before return"; DRet [%s; IOp R_multiply; %s]]]' % (add, x, x, a),
+        '[IDo [DStmt [%s] None; DRet [IList [LCom "// in list in do"; LItem [%s] None]]]]' % (a, x),
+        '[%s; ICall [[IList [LCom "// c"; LItem [%s] None]]; %s]; IOp R_add; '
+        'ILambda [AReq "x"] [IDo [DCom "// in lambda"; DRet [%s]]]]' % ('IIdent "f"', a, add, x),
+        '[ICond [%s] [IList [LCom "// then"; LItem [%s] None]] [IRecord [RCom "// else"; RShortI "b" None]]]' % (a, b),
+    ]
+    cases = []
+    for e in base:
+        cases.append(("comments", e))
+        cases.append(("comments-stripped", "(strip_items %s)" % e))
+    return cases
+
+
+def check_comment_pairs(res, cases, models, impls):
+    k = [i for i, (kind, _) in enumerate(cases) if kind == "comments"]
+    bad = [i for i in k if impls[i] != impls[i + 1] or models[i] != models[i + 1] or not (impls[i] or "").startswith("E ")]
+    if bad:
+        i = bad[0]
+        res.violation("comments change the parsed program",
+                      {"kind": "impl-law", "law": "AST(with comments) == AST(comments removed)",
+                       "program": None, "observed": impls[i], "expected": impls[i + 1], "case": cases[i][1]})
+    return len(k)
 
 
 def coq_case(items_expr):
@@ -720,9 +760,10 @@ def main(argv):
     fc = []
     if model_ok:
         # ---- FLAT: exhaustive operator sequences, model vs implementation
-        fc = flat_cases(tier, rng)
+        fc = flat_cases(tier, rng) + comment_cases()
         r = run_stream(h, res, "PARSE-flat", fc)
         if r:
+            res.streams["PARSE-flat"]["comment_pairs"] = check_comment_pairs(res, fc, r[1], r[2])
             evaluations += len(fc)
             validated += len(fc) - res.streams["PARSE-flat"]["mismatches"]
         lap(res, "PARSE-flat")
